@@ -15,7 +15,7 @@ TARGETS = ["theories/Properties/C03.vo"]
 PROPERTIES_FILE = "theories/Properties/C03.v"
 IMPL = "harness.props.c03_impl"
 TAGGED = True
-SHARD = 250
+SHARD = 800
 NWORKERS = 3
 TABLE_DEPS = ["pr_str_escapes", "pr_delims", "pr_fstrings", "pr_special_floats", "pr_separators",
               "pr_lrepr_types", "pr_print_defaults", "rd_str_escapes", "rd_bytes_escapes", "rd_numeric_constants",
@@ -419,7 +419,8 @@ def cases(tier, rng):
 
 # ---- Gallina printers ------------------------------------------------------------------
 def cpl(l):
-    return "(@nil N)" if not l else "[" + "; ".join(f"{c}%N" for c in l) + "]"
+    # bare numerals: the case files open N_scope
+    return "(@nil N)" if not l else "[" + "; ".join(str(c) for c in l) + "]"
 
 
 def cstr(text):
@@ -458,7 +459,7 @@ def cz(text):
     while n:
         chunks.append(n & ((1 << 60) - 1))
         n >>= 60
-    return f"(zbig {G.b(neg)} [" + "; ".join(f"{c}%N" for c in reversed(chunks)) + "])"
+    return f"(zbig {G.b(neg)} [" + "; ".join(str(c) for c in reversed(chunks)) + "])"
 
 
 KIND = {"l": "KList", "v": "KVec", "s": "KSet", "q": "KQueue", "pl": "KPyList", "pt": "KPyTuple", "ps": "KPySet"}
@@ -497,14 +498,14 @@ def coq_value(j):
             "[" + "; ".join(f"({coq_value(k)}, {coq_value(v)})" for k, v in j[2]) + "]"
         return f"(VMap {G.b(bool(j[1]))} {ents} {cmeta(j[3])})"
     if t == "u":
-        return f"(VTag 0%N {cstr(j[1])})"
+        return f"(VTag 0 {cstr(j[1])})"
     if t == "t":
-        return f"(VTag 1%N {cstr(j[1])})"
+        return f"(VTag 1 {cstr(j[1])})"
     if t == "re":
         return f"(VRegex {cpl(j[1])})"
     if t == "by":
         return f"(VBytes {cpl(j[1])})"
-    return f"(VTag 99%N {cstr(str(j[1:])[:60])})"
+    return f"(VTag 99 {cstr(str(j[1:])[:60])})"
 
 
 def coq_pc(pc):
@@ -579,7 +580,7 @@ def coq_case_with(c, v, text):
     bad = bad_patterns(text) if text else []
     o = "(@nil (str * str))" if not orc else "[" + "; ".join(f"({cstr(k)}, {cstr(r)})" for k, r in orc) + "]"
     b = "(@nil str)" if not bad else "[" + "; ".join(cstr(p) for p in bad) + "]"
-    return f"(Case {c['via']}%N {coq_pc(c['pc'])} {coq_value(v)} {o} {b})"
+    return f"(Case {c['via']} {coq_pc(c['pc'])} {coq_value(v)} {o} {b})"
 
 
 def coq_case(c):
@@ -588,17 +589,17 @@ def coq_case(c):
 
 def coq_out(o):
     if not isinstance(o, dict) or o.get("__hang__") or o.get("__timeout__") or o.get("__died__"):
-        return "(OErr 3%N)"
+        return "(OErr 3)"
     if "__error__" in o:
-        return "(OErr 2%N)"
+        return "(OErr 2)"
     if "perr" in o:
-        return f"(OPrintErr {int(o['perr'])}%N)"
+        return f"(OPrintErr {int(o['perr'])})"
     text = cpl(o["text"])
     if "rerr" in o:
-        return f"(OReadErr {text} {int(o['rerr'])}%N)"
+        return f"(OReadErr {text} {int(o['rerr'])})"
     if o.get("n", 0) == 0:
         return f"(ONone {text})"
-    return f"(OOk {text} {int(o['n'])}%N {coq_value(o['back'])} {int(o['refix'])}%N {G.b(bool(o['det']))})"
+    return f"(OOk {text} {int(o['n'])} {coq_value(o['back'])} {int(o['refix'])} {G.b(bool(o['det']))})"
 
 
 def coq_pair(c, o):
